@@ -147,6 +147,8 @@ class Check(RuntimeCheck):
         exe = os.path.join(engine.HARNESS, 'target', 'debug', 'crashpoints')
         cells = [(c, t) for c in ('debug-nomatch', 'debug-nomock', 'debug-mismatch', 'clone-return', 'eq-matcher')
                  for t in ('orig', 'orig+clone', 'clone-first', 'clone-outside', 'clone-only')]
+        # an explicit verify() in a fixture's Drop during the unwind; lent values released on a foreign, unwinding thread
+        cells += [(c, t) for c in ('verify-in-drop', 'lent-foreign') for t in ('orig', 'clone-outside')]
         def one(cell):
             p = subprocess.run([exe, cell[0], cell[1]], capture_output=True, text=True, timeout=120)
             return cell, p.returncode, p.stdout.strip(), p.stderr.strip()[-200:]
